@@ -160,7 +160,7 @@ def execute(run, prop, shard):
                 return any(g.kind == f0.kind and g.exc == f0.exc and g.backend == f0.backend for g in oo.findings)
 
             run.finding(f, prog, owned=own, reshrink=(still if not f.kind.startswith(("repair", "pol_subquery")) else None),
-                        ctx={"ref": out.ref_env.get(f.backend if f.backend in out.ref_env else "pol")})
+                        ctx={"ref": out.ref_env.get(f.backend if f.backend in out.ref_env else "pol"), "real": out.real_env.get(f.backend if f.backend in out.real_env else "pol")})
     # (c) the simple class never needs a subquery
     m = 300 if run.tier == "quick" else 1200
     for i in range(m):
@@ -189,7 +189,7 @@ def execute(run, prop, shard):
                     return any(c == "SubqueryError" for _b, (_s, c) in oo.refused.items())
                 return any(g.kind == f0.kind and g.exc == f0.exc and g.backend == f0.backend for g in oo.findings)
 
-            run.finding(f, prog, owned=own, reshrink=still, ctx={"ref": out.ref_env.get(f.backend if f.backend in out.ref_env else "pol")})
+            run.finding(f, prog, owned=own, reshrink=still, ctx={"ref": out.ref_env.get(f.backend if f.backend in out.ref_env else "pol"), "real": out.real_env.get(f.backend if f.backend in out.real_env else "pol")})
     run.extra["subquery_decisions_observed"] = {str(k): int(v) for k, v in M.INT.subquery_reasons.items()}
     if shard is None:
         run.inconclusive_if(M.INT.hits.get("Cache.requires_subquery", 0) == 0, "requires_subquery was never observed")
